@@ -53,10 +53,10 @@ func (d *denyAC) CanAppend(e accesscontroller.LogEntry, _ idp.Interface, _ acces
 
 type replica struct {
 	tampered bool // holds invalid entry objects: only ever used as the SOURCE of joins
-	log    *ipfslog.IPFSLog
-	writer string
-	sort   string
-	id     string
+	log      *ipfslog.IPFSLog
+	writer   string
+	sort     string
+	id       string
 }
 
 type world struct {
@@ -79,21 +79,21 @@ type world struct {
 	lenPtrs       map[int]*int
 	acl           bool // access-control history: some payloads are reserved ('!…')
 	hung          bool // an operation did not return
-	clock0        int // initial clock time of the replicas of this history
+	clock0        int  // initial clock time of the replicas of this history
 	jsonFO        *entry.FetchOptions
 	logConc       uint // LogOptions.Concurrency of the replicas of this history (0 = default)
 	// codec configuration of the history: nil = default, otherwise link-encrypting with one shared key
-	io    iface.IO
-	ioDec *cbor.IOCbor
-	optsCache     map[string]*ipfslog.LogOptions
-	loadOpts      map[string]*ipfslog.LogOptions
+	io        iface.IO
+	ioDec     *cbor.IOCbor
+	optsCache map[string]*ipfslog.LogOptions
+	loadOpts  map[string]*ipfslog.LogOptions
 }
 
 type coreStats struct {
 	Histories, Ops, Appends, Joins, JoinNs, Loads, Iters, SetIds, TieHists, Forks, Exchanges, DeniedAppends, BangAppends, RejectedJoins, AclHists, Tampers, KeyedHists, DerivedCodecs int
-	OpHist                                                                                 map[string]int
-	DistinctNontrivial                                                                     int
-	shapes                                                                                 map[string]bool
+	OpHist                                                                                                                                                                            map[string]int
+	DistinctNontrivial                                                                                                                                                                int
+	shapes                                                                                                                                                                            map[string]bool
 }
 
 func sortFnOf(k string) iface.EntrySortFn {
@@ -298,7 +298,8 @@ func (w *world) doAppend(i int, pc int) {
 	}
 	var opts *iface.AppendOptions
 	if pc != 0 || w.r.Intn(2) == 0 {
-		opts = &iface.AppendOptions{PointerCount: pc}
+		// a quarter of the appends ask for the block to be pinned: the entry and its identifier must not depend on it
+		opts = &iface.AppendOptions{PointerCount: pc, Pin: w.r.Intn(4) == 0}
 	}
 	e, err := l.Append(w.ctx, payload, opts)
 	if err != nil {
